@@ -518,6 +518,21 @@ class Interp(OpsMixin, BuiltinsMixin):
         # (1) initiation
         for k, inv in enumerate(spec.invariant):
             run.oblige("loop-invariant-init", self.spec_bool(inv, self.loop_env(env)), f"{key} inv#{k} holds on entry: {inv}", st.lineno)
+        if getattr(spec, "forget", False):
+            for name, ea in spec.entry_asserts:
+                run.oblige("intermediate-postcondition", self.spec_bool(ea, self.loop_env(env)), f"{key} on entry: {name}", st.lineno)
+            for name in spec.cut_vars:
+                if env.has(name):
+                    self.set_existing(env, name, self.havoc_like(env.lookup(name), f"{key}.cut.{name}"))
+            allowed = set(self.inputs.keys())
+            kept = [a for a in run.pc if _consts_of(a) <= allowed]
+            run.pc = list(kept)
+            run.solver = z3.Solver()
+            run.solver.set("timeout", getattr(self.c, "prune_timeout_ms", None) or run.x.prune_timeout_ms)
+            for a in kept:
+                run.solver.add(a)
+            for k, inv in enumerate(spec.invariant):
+                pass  # (init obligations were recorded above; the invariant is assumed below on the havoced state)
         # havoc what the body assigns
         mods = spec.modifies if spec.modifies is not None else sorted(_assigned_names(st.body))
         pre = {}
@@ -664,6 +679,25 @@ class Interp(OpsMixin, BuiltinsMixin):
                 ok = any(m == f"{obj.name}.{attr}" or m == f"{obj.name}.*" for m in mod)
                 if not ok:
                     self.run.oblige("frame", z3.BoolVal(False), f"write to {obj.name}.{attr} outside modifies {sorted(mod)}", self.lineno, hard=True)
+
+
+def _consts_of(e):
+    """names of the uninterpreted constants (arity 0) occurring in a z3 term"""
+    out = set()
+    seen = set()
+    stack = [e]
+    while stack:
+        t = stack.pop()
+        if t.get_id() in seen:
+            continue
+        seen.add(t.get_id())
+        if z3.is_app(t):
+            if t.num_args() == 0 and t.decl().kind() == z3.Z3_OP_UNINTERPRETED:
+                out.add(t.decl().name())
+            stack.extend(t.children())
+        elif z3.is_quantifier(t):
+            stack.append(t.body())
+    return out
 
 
 def _as_load(node):
